@@ -1076,6 +1076,8 @@ fn compute_tags(ops_path: &str) -> HashMap<String, String> {
                             t.push("ids-toggle")
                         }
                     }
+                    ["js", _] => t.push("twin-js"),
+                    ["tok", _] => t.push("twin-tok"),
                     ["ctx", "islands"] => t.push("islands"),
                     ["hyd", _] => t.push("hyd-toggle"),
                     ["seal", _] => t.push("seal"),
@@ -1342,6 +1344,30 @@ fn gen(seed: u64, n: usize, path: &str) -> std::io::Result<()> {
     while produced < n {
         let safe = r.chance(11, 20);
         match r.below(10) {
+            0 if r.chance(1, 2) => {
+                // browser twins only: random literal sources / script texts
+                const ESC: &[&str] = &[
+                    "\\0", "\\1", "\\7", "\\8", "\\9", "\\00", "\\012", "\\377", "\\400", "\\x41", "\\x4", "\\u0041", "\\u004",
+                    "\\u{41}", "\\u{000041}", "\\u{10ffff}", "\\u{110000}", "\\u{}", "\\ud83d\\ude00", "\\ud83d", "\\n", "\\v", "\\a",
+                    "\\\"", "\\\\", "\\\n", "\\\r\n", "\\\u{2028}", "\u{2028}", "\n", "0", "7", "8", "a", "{", "}", "<", "\"", "😀", "\0",
+                ];
+                const TXT: &[&str] = &[
+                    "<", "!", "-", "/", "script", "SCRIPT", "scrip", ">", " ", "x", "</script", "<!--", "-->", "<script", "\n", "\t",
+                    "</", "<!", "--", "<scriptx", "</script ", "</script/", "\"", "<!-->",
+                ];
+                let mut l = vec![];
+                for _ in 0..r.range(1, 4) {
+                    if r.chance(1, 2) {
+                        let body: String = (0..r.below(6)).map(|_| *r.pick(ESC)).collect();
+                        l.push(format!("js {}", hex(format!("\"{body}\"").as_bytes())));
+                    } else {
+                        let t: String = (0..r.below(9)).map(|_| *r.pick(TXT)).collect();
+                        l.push(format!("tok {}", hex(t.as_bytes())));
+                    }
+                }
+                emit(&mut f, &l)?;
+                produced += 1;
+            }
             0 => {
                 let len = r.range(1, 14);
                 let p: String = (0..len).map(|_| *r.pick(&['c', 'c', 'c', 't', 'f'])).collect();
